@@ -20,6 +20,7 @@
 #define HAVE_STATIC_SOLVER 1
 #include "vpsc_drive.h"
 #include "vpsc_recs.h"
+#include "vpsc_redeq.h"
 
 int main(int argc, char **argv)
 {
@@ -37,6 +38,7 @@ int main(int argc, char **argv)
         return 0;
     }
     if (m == "recs" && argc >= 4) return recsMode(argv[2], argv[3]);
+    if (m == "redeq" && argc >= 4) return redeqMode(argv[2], argv[3]);
     if (m == "repeat" && argc >= 4) return repeatMode(argv[2], argv[3]);
     if (m == "gen" && argc >= 6) return genMode(atoi(argv[2]), strtoull(argv[3], 0, 10), argv[4], argv[5]);
     return 2;
